@@ -51,7 +51,7 @@ MaxWork == 60         \* saturation of the work counter (lines delivered to Prod
 R(n, g, lo, hi, e) == [n |-> n, g |-> g, lo |-> lo, hi |-> hi, e |-> e]
 
 MacroOps ==     \* as.c: MacroStart() / case 'I' 'R' 'W' / ReadMacro / MacroEnd()
-  { R("IRP", "mo", 2, AMAX, "rec"), R("IRPN", "mo", 3, AMAX, "rec"), R("IRPC", "mo", 2, 2, "rec"),
+  { R("IRP", "mo", 2, AMAX, "rec"), R("IRPN", "mo", 3, AMAX, "rec"), R("IRPC", "mo", 2, AMAX, "rec"),
     R("REPT", "mo", 1, 1, "rec"), R("WHILE", "mo", 1, 1, "rec"), R("MACRO", "md", 0, AMAX, "rec"),
     R("ENDM", "me", 0, 0, "endm"), R("ENDR", "me", 0, 0, "endm"),
     R("EXITM", "mc", 0, 0, "exitm"), R("SHIFT", "mc", 0, 0, "shift"), R("INCLUDE", "inc", 1, 1, "none"),
@@ -67,7 +67,7 @@ IfOps ==        \* asmif.c
 
 PseudoOps ==    \* asmallg.c Pseudos[] + CodeGlobalPseudo specials + errmsg/section helpers
   { R("ALIGN", "ps", 1, 2, "none"), R("ASEG", "ps", 0, 0, "none"), R("ASSUME", "ps", 1, AMAX, "none"),
-    R("BINCLUDE", "ps", 1, 3, "none"), R("CHARSET", "ps", 0, 3, "none"), R("CODEPAGE", "ps", 1, 2, "none"),
+    R("BINCLUDE", "ps", 1, 3, "mfatal"), R("CHARSET", "ps", 0, 3, "none"), R("CODEPAGE", "ps", 1, 2, "none"),
     R("CPU", "ps", 1, 1, "none"), R("DEPHASE", "ps", 0, 0, "ph-"), R("END", "ps", 0, 1, "end"),
     R("ENDEXPECT", "ps", 0, 0, "ex-"), R("ENDS", "ps", 0, 1, "st-"), R("ENDSECTION", "ps", 0, 1, "se-"),
     R("ENDSTRUC", "ps", 0, 1, "st-"), R("ENDSTRUCT", "ps", 0, 1, "st-"), R("ENDUNION", "ps", 0, 1, "st-"),
@@ -77,7 +77,7 @@ PseudoOps ==    \* asmallg.c Pseudos[] + CodeGlobalPseudo specials + errmsg/sect
     R("INTSYNTAX", "ps", 1, AMAX, "none"), R("LABEL", "ps", 1, 1, "none"), R("LISTING", "ps", 1, 1, "none"),
     R("MESSAGE", "ps", 1, 1, "none"), R("NEWPAGE", "ps", 0, 1, "none"), R("NESTMAX", "ps", 1, 1, "none"),
     R("NEXTENUM", "ps", 1, AMAX, "none"), R("ORG", "ps", 1, 1, "none"), R("OUTRADIX", "ps", 1, 1, "none"),
-    R("PHASE", "ps", 1, 1, "ph+"), R("POPV", "ps", 2, AMAX, "none"), R("PRSET", "ps", 0, 0, "none"),
+    R("PHASE", "ps", 1, 1, "ph+"), R("POPV", "ps", 2, AMAX, "none"), R("PRSET", "ps", 0, AMAX, "none"),
     R("PRTINIT", "ps", 1, 1, "none"), R("PRTEXIT", "ps", 1, 1, "none"), R("TITLE", "ps", 1, 1, "none"),
     R("PUSHV", "ps", 2, AMAX, "none"), R("RADIX", "ps", 1, 1, "none"), R("READ", "ps", 1, 2, "none"),
     R("RELAXED", "ps", 1, 1, "none"), R("MACEXP", "ps", 1, AMAX, "none"), R("MACEXP_DFT", "ps", 1, AMAX, "none"),
@@ -109,8 +109,8 @@ FuncOps ==      \* function.c Functions[] + the built-ins of asmpars.c; argument
     R("COSH", "fn", 1, 1, "none"), R("TANH", "fn", 1, 1, "none"), R("COTH", "fn", 1, 1, "none"),
     R("LN", "fn", 1, 1, "none"), R("LOG", "fn", 1, 1, "none"), R("LD", "fn", 1, 1, "none"),
     R("ASINH", "fn", 1, 1, "none"), R("ACOSH", "fn", 1, 1, "none"), R("ATANH", "fn", 1, 1, "none"),
-    R("ACOTH", "fn", 1, 1, "none"), R("DEFINED", "fn", 1, 1, "none"), R("SYMTYPE", "fn", 1, 1, "none"),
-    R("ASSUMEDVAL", "fn", 1, 1, "none") }
+    R("ACOTH", "fn", 1, 1, "none"), R("DEFINED", "fn", 0, AMAX, "none"), R("SYMTYPE", "fn", 0, AMAX, "none"),
+    R("ASSUMEDVAL", "fn", 0, AMAX, "none") }    \* the last three take the whole argument text as a symbol name
 
 BinOps ==       \* operator.c Operators[]: the varied argument is an operand
   { R("B+", "bo", 2, 2, "none"), R("B-", "bo", 2, 2, "none"), R("B*", "bo", 2, 2, "none"),
@@ -270,10 +270,13 @@ OpenerKind(e)  == CASE e = "st+" -> "st" [] e = "se+" -> "se" [] e = "ph+" -> "p
 Pseudo(m, s) ==
   LET o == Op(s.op) IN
   IF ArgcBad(s) /\ o.g \in {"ps", "da", "fn"} THEN {Err(m)}               \* ChkArgCnt: error, nothing else
-  ELSE CASE CloserKinds(o.e) # {} -> IF ~HasOpen(m, CloserKinds(o.e)) THEN {Err(m)}          \* closer without opener
+  ELSE CASE o.e = "ph-" /\ ~HasOpen(m, {"ph"}) -> {m}      \* deviation of the code: DEPHASE without PHASE is silently accepted
+         [] CloserKinds(o.e) # {} -> IF ~HasOpen(m, CloserKinds(o.e)) THEN {Err(m)}          \* closer without opener
                                      ELSE {PopKind(m, CloserKinds(o.e)), Err(m)}
          [] OpenerKind(o.e) # "none" -> {Push(m, OpenerKind(o.e)), Err(m)}
          [] o.e = "fatal" -> {[m EXCEPT !.fatal = TRUE], Err(m)}
+         [] o.e = "mfatal" \/ o.g = "fn" -> {m, Err(m), [m EXCEPT !.fatal = TRUE]}   \* unreadable file / a type mismatch of a
+                                                                                  \* function argument ends as "internal error" (fatal)
          [] o.e = "end"   -> {[m EXCEPT !.ended = TRUE], [Err(m) EXCEPT !.ended = TRUE], Err(m)}
          [] OTHER -> {m, Err(m)}
 
